@@ -72,14 +72,29 @@ Qed.
 
 (* ------------------------------------------------------------------------------------------------ pass 4 *)
 
-Lemma struct_el : forall fx pk idx n attrs kids,
-  val_struct fx pk idx (Elem MATHML_NS n attrs kids) = val_node fx pk idx n attrs kids (val_struct_kids fx (mkids kids) kids 0).
+Lemma struct_sub : forall q fx mk kids i,
+  (fix go (ks : list xml) (i : nat) {struct ks} : list rule :=
+     match ks with
+     | [] => []
+     | k :: r => if is_mathml k then val_struct_q q fx mk i k ++ go r (S i) else go r i
+     end) kids i = val_struct_kids_q q fx mk kids i.
 Proof.
-  intros. cbn [val_struct]. rewrite String.eqb_refl. cbn [negb]. f_equal.
-  generalize (mkids kids) as mk. generalize 0 as i.
-  induction kids as [|k r IH]; intros i mk; [reflexivity|].
-  cbn [val_struct_kids]. destruct (is_mathml k); now rewrite IH.
+  intros q fx mk kids. induction kids as [|k r IH]; intro i; [reflexivity|].
+  cbn [val_struct_kids_q]. destruct (is_mathml k); now rewrite IH.
 Qed.
+
+Lemma struct_el : forall q fx pk idx n attrs kids,
+  val_struct_q q fx pk idx (Elem MATHML_NS n attrs kids) =
+  qwrap q n (val_node fx pk idx n attrs kids (val_struct_kids_q q fx (mkids kids) kids 0))
+            (val_struct_kids_q q fx (mkids kids) kids 0).
+Proof.
+  intros. cbn [val_struct_q]. rewrite String.eqb_refl. cbn [negb]. now rewrite struct_sub.
+Qed.
+
+Lemma qwrap_nq : forall q n r sub, is_qualifier n = false -> qwrap q n r sub = r.
+Proof. intros q n r sub H. unfold qwrap. rewrite H. now rewrite Bool.andb_false_r. Qed.
+Lemma qwrap_nil : forall q n sub, sub = [] -> qwrap q n [] sub = [].
+Proof. intros q n sub ->. unfold qwrap. now destruct (q && is_qualifier n). Qed.
 
 Lemma visible_single : forall x, visible [x] = [x].
 Proof. intro x. unfold visible. cbn. now destruct (is_blank_text x). Qed.
@@ -90,16 +105,16 @@ Proof.
   destruct (strip m); [discriminate H|discriminate E].
 Qed.
 
-Lemma struct_leaf1 : forall fx op a, In op ops1 -> val_struct fx [m_leaf op; a] 0 (m_leaf op) = [].
-Proof. intros fx op a H. destruct fx; in_cases H; reflexivity. Qed.
-Lemma struct_leaf2 : forall fx op a b, In op ops2 -> val_struct fx [m_leaf op; a; b] 0 (m_leaf op) = [].
-Proof. intros fx op a b H. destruct fx; in_cases H; reflexivity. Qed.
-Lemma struct_leaf3 : forall fx op a b c, In op ops3 -> val_struct fx [m_leaf op; a; b; c] 0 (m_leaf op) = [].
-Proof. intros fx op a b c H. destruct fx; in_cases H; reflexivity. Qed.
-Lemma struct_const : forall fx c pk idx, In c constants -> val_struct fx pk idx (m_leaf c) = [].
-Proof. intros fx c pk idx H. in_cases H; reflexivity. Qed.
-Lemma struct_ci : forall fx v pk idx, In v std_vars -> val_struct fx pk idx (m_ci v) = [].
-Proof. intros fx v pk idx H. in_cases H; reflexivity. Qed.
+Lemma struct_leaf1 : forall q fx op a, In op ops1 -> val_struct_q q fx [m_leaf op; a] 0 (m_leaf op) = [].
+Proof. intros q fx op a H. destruct q, fx; in_cases H; reflexivity. Qed.
+Lemma struct_leaf2 : forall q fx op a b, In op ops2 -> val_struct_q q fx [m_leaf op; a; b] 0 (m_leaf op) = [].
+Proof. intros q fx op a b H. destruct q, fx; in_cases H; reflexivity. Qed.
+Lemma struct_leaf3 : forall q fx op a b c, In op ops3 -> val_struct_q q fx [m_leaf op; a; b; c] 0 (m_leaf op) = [].
+Proof. intros q fx op a b c H. destruct q, fx; in_cases H; reflexivity. Qed.
+Lemma struct_const : forall q fx c pk idx, In c constants -> val_struct_q q fx pk idx (m_leaf c) = [].
+Proof. intros q fx c pk idx H. destruct q; in_cases H; reflexivity. Qed.
+Lemma struct_ci : forall q fx v pk idx, In v std_vars -> val_struct_q q fx pk idx (m_ci v) = [].
+Proof. intros q fx v pk idx H. destruct q; in_cases H; reflexivity. Qed.
 
 Ltac mathml_facts :=
   repeat match goal with
@@ -137,8 +152,10 @@ Ltac struct_step :=
   repeat (first [ rewrite struct_el
                 | rewrite String.eqb_refl
                 | match goal with H : is_mathml ?a = true |- context [is_mathml ?a] => rewrite H end
-                | match goal with H : forall pk idx, val_struct _ pk idx ?a = [] |- context [val_struct _ _ _ ?a] => rewrite H end
-                | progress cbn [val_struct_kids mkids filter app is_mathml m_leaf m_el length]
+                | match goal with H : forall pk idx, val_struct_q _ _ pk idx ?a = [] |- context [val_struct_q _ _ _ _ ?a] => rewrite H end
+                | progress cbn [val_struct_kids_q mkids filter app is_mathml m_leaf m_el length]
+                | rewrite qwrap_nq by reflexivity
+                | rewrite qwrap_nil by reflexivity
                 | rewrite node_apply by solve_len
                 | rewrite node_piecewise
                 | rewrite node_piece by solve_len
@@ -146,14 +163,14 @@ Ltac struct_step :=
                 | rewrite node_degree by solve_len
                 | rewrite node_logbase by solve_len ]).
 
-Lemma wf_struct : forall fx a, WFExpr a -> forall pk idx, val_struct fx pk idx a = [].
+Lemma wf_struct : forall q fx a, WFExpr a -> forall pk idx, val_struct_q q fx pk idx a = [].
 Proof.
-  intro fx. induction 1; intros pk idx; mathml_facts.
+  intros q fx. induction 1; intros pk idx; mathml_facts.
   - now apply struct_ci.
-  - unfold m_cn. rewrite struct_el. unfold val_node. cbn [vclass_of in_list existsb String.eqb Ascii.eqb Bool.eqb orb].
+  - unfold m_cn. rewrite struct_el, qwrap_nq by reflexivity. unfold val_node. cbn [vclass_of in_list existsb String.eqb Ascii.eqb Bool.eqb orb].
     unfold val_cn_struct, non_comment_kids. rewrite visible_single. cbn. unfold node_is_basic_real, stripped. cbn [xml_to_string].
     now rewrite H.
-  - unfold m_cn_e. rewrite struct_el. unfold val_node. cbn [vclass_of in_list existsb String.eqb Ascii.eqb Bool.eqb orb].
+  - unfold m_cn_e. rewrite struct_el, qwrap_nq by reflexivity. unfold val_node. cbn [vclass_of in_list existsb String.eqb Ascii.eqb Bool.eqb orb].
     unfold val_cn_struct, non_comment_kids, visible. cbn [first_child]. rewrite (basic_real_not_blank m H).
     cbn. unfold node_is_basic_real, stripped. cbn [xml_to_string]. rewrite H. cbn.
     now rewrite H0.
@@ -164,8 +181,8 @@ Proof.
     change (Elem MATHML_NS op [] []) with (m_leaf op). rewrite struct_leaf2 by assumption. reflexivity.
   - unfold m_apply. unfold m_el at 1. struct_step.
     change (Elem MATHML_NS op [] []) with (m_leaf op). rewrite struct_leaf3 by assumption. reflexivity.
-  - unfold m_apply. unfold m_el. struct_step. reflexivity.
-  - unfold m_apply. unfold m_el. struct_step. reflexivity.
+  - unfold m_apply. unfold m_el. struct_step. destruct q, fx; reflexivity.
+  - unfold m_apply. unfold m_el. struct_step. destruct q, fx; reflexivity.
   - unfold m_el. struct_step. reflexivity.
   - unfold m_el. struct_step. reflexivity.
   - unfold m_el. struct_step. reflexivity.
@@ -336,7 +353,7 @@ Qed.
 (** what the three validator passes need to know of a sub-tree *)
 Definition vfacts (x : xml) : Prop :=
   is_mathml x = true /\ val_supported x = [] /\ val_cicn std_vars std_units x = []
-  /\ forall fx pk idx, val_struct fx pk idx x = [].
+  /\ forall q fx pk idx, val_struct_q q fx pk idx x = [].
 (** what the analyser needs to know of one side of an equation *)
 Definition afacts (x : xml) : Prop :=
   forall parent gp, exists r, ana_node std_vars parent gp x None = Ok r /\ printable true r = true /\ side_ok (Some r) = true.
@@ -356,7 +373,7 @@ Qed.
 Definition ode_lhs (x t : string) : xml := m_apply "diff" [m_el "bvar" [m_ci t]; m_ci x].
 
 Lemma ode_vfacts : forall x t, In x std_vars -> In t std_vars -> vfacts (ode_lhs x t).
-Proof. intros x t Hx Ht. in_cases Hx; in_cases Ht; repeat split; intros [] pk idx; reflexivity. Qed.
+Proof. intros x t Hx Ht. in_cases Hx; in_cases Ht; repeat split; intros [] [] pk idx; reflexivity. Qed.
 
 Lemma ode_afacts : forall x t, In x std_vars -> In t std_vars -> afacts (ode_lhs x t).
 Proof.
@@ -370,9 +387,9 @@ Proof.
   repeat split.
   - unfold m_el. rewrite sup_el. cbn [flat_map app]. now rewrite Sl, Sr.
   - unfold m_el. rewrite cicn_el. cbn [flat_map app String.eqb Ascii.eqb Bool.eqb]. now rewrite Cl, Cr.
-  - intros fx pk idx. unfold m_el at 1.
-    assert (Tl' : forall pk idx, val_struct fx pk idx lhs = []) by (intros; apply Tl).
-    assert (Tr' : forall pk idx, val_struct fx pk idx rhs = []) by (intros; apply Tr).
+  - intros q fx pk idx. unfold m_el at 1.
+    assert (Tl' : forall pk idx, val_struct_q q fx pk idx lhs = []) by (intros; apply Tl).
+    assert (Tr' : forall pk idx, val_struct_q q fx pk idx rhs = []) by (intros; apply Tr).
     struct_step.
     change (Elem MATHML_NS "eq" [] []) with (m_leaf "eq"). rewrite struct_leaf2 by (unfold ops2; cbn; tauto). reflexivity.
 Qed.
@@ -430,9 +447,9 @@ Proof.
   induction 1 as [|e r He _ IH]; [reflexivity|]. cbn [flat_map].
   destruct (wfeqn_facts e He) as ((_ & _ & C & _) & _). now rewrite C, IH.
 Qed.
-Lemma all_struct : forall fx eqs, Forall WFEqn eqs -> forall mk i, val_struct_kids fx mk eqs i = [].
+Lemma all_struct : forall q fx eqs, Forall WFEqn eqs -> forall mk i, val_struct_kids_q q fx mk eqs i = [].
 Proof.
-  intro fx. induction 1 as [|e r He _ IH]; intros mk i; [reflexivity|]. cbn [val_struct_kids].
+  intros q fx. induction 1 as [|e r He _ IH]; intros mk i; [reflexivity|]. cbn [val_struct_kids_q].
   destruct (wfeqn_facts e He) as ((M & _ & _ & T) & _). now rewrite M, T, IH.
 Qed.
 Lemma all_ana : forall eqs, Forall WFEqn eqs -> forall root, is_mathml_el "math" root = true ->
@@ -444,22 +461,22 @@ Proof.
 Qed.
 
 (** The contract on the generators' grammar: the validator raises nothing and the analyser reads the document. *)
-Theorem val_implies_ana_partial_gen : forall fx x, WellFormedMath x ->
-  val_math_env_gen fx std_vars std_units x = [] /\ ana x <> None.
+Theorem val_implies_ana_partial_gen : forall q fx x, WellFormedMath x ->
+  val_math_env_gen2 q fx std_vars std_units x = [] /\ ana x <> None.
 Proof.
-  intros fx x (eqs & -> & Hall). split.
-  - unfold val_math_env_gen. change (is_mathml_el "math" (m_math eqs)) with true. unfold m_math, m_el.
+  intros q fx x (eqs & -> & Hall). split.
+  - unfold val_math_env_gen2. change (is_mathml_el "math" (m_math eqs)) with true. unfold m_math, m_el.
     cbn [negb kids_of].
     change ((fix go (ks : list xml) : list rule := match ks with [] => [] | k :: r => val_supported k ++ go r end) eqs)
       with (flat_map val_supported eqs).
-    rewrite (all_supported eqs Hall), cicn_el, (all_cicn eqs Hall), (all_struct fx eqs Hall). reflexivity.
+    rewrite (all_supported eqs Hall), cicn_el, (all_cicn eqs Hall), (all_struct q fx eqs Hall). reflexivity.
   - unfold ana, ana_node_opt, ana_math_env. unfold m_math, m_el. cbn [kids_of].
     rewrite (visible_mathml eqs (all_mathml eqs Hall)).
     destruct (all_ana eqs Hall (Elem MATHML_NS "math" [] eqs) eq_refl) as (l & El). rewrite El. discriminate.
 Qed.
 
 Theorem val_implies_ana_partial : forall x, WellFormedMath x -> val_math x = [] /\ ana x <> None.
-Proof. intros x H. apply (val_implies_ana_partial_gen arity_fix_committed x H). Qed.
+Proof. intros x H. apply (val_implies_ana_partial_gen qualifier_fix_committed arity_fix_committed x H). Qed.
 
 (** non-vacuity: a document of the grammar that uses most constructors *)
 Example wf_example :
